@@ -9,6 +9,8 @@ import LenaModel.Model.C19Spec
   {"op":"latex","overwrite":b,"world":W,"watch":[p],"data":D,"out":O}
   {"op":"png","overwrite":b,"format":s,"world":W,"watch":[p],"data":D,"out":O}
         -> {"files":{p:F|null},"log":[..],"vals":[{"data":D,"out":O}]} | {"e":E}
+  {"op":"latexrun","overwrite":b,"verbose":n,"world":W,"watch":[p],"vals":[{"data":D,"out":O,"ok":b,"fin":n}]}
+        LaTeXToPDF.run on a flow: per launch whether the command succeeds and after how many polls it is seen terminated
   {"op":"winit","eu":b,"ow":b}                                     -> {"mode":M} | {"e":E}
   {"op":"gp","ms":[b|null]}                                        -> {"changed":b}
   {"op":"uwg","ctx":O,"new":[O],"old":O}                           -> {"out":O}
@@ -306,6 +308,22 @@ def handle (j : Json) : Json :=
       | .error e => ofExc e
       | .ok (w', ov) => ofResult watch w.clock w' ov.toList
     | _, _, _, _ => err "bad latex args"
+  | some "latexrun" =>
+    match bool? (getD j "overwrite"), nat? (getD j "verbose"), world? (getD j "world"), arr? (getD j "vals") with
+    | some ow, some vb, some w, some vals =>
+      let flow := vals.toList.mapM fun x => do
+        let dt ← data? (getD x "data")
+        let o ← outCtx? (getD x "out")
+        let ok ← bool? (getD x "ok")
+        let fin ← nat? (getD x "fin")
+        pure (({ data := dt, name := none, out := o, group := none } : Val Content), ({ ok := ok, fin := fin } : Sched))
+      match flow with
+      | none => err "bad latexrun vals"
+      | some flow =>
+        match latexRun stubConv ow vb w [] flow with
+        | .error e => ofExc e
+        | .ok (w', vs) => ofResult watch w.clock w' vs
+    | _, _, _, _ => err "bad latexrun args"
   | some "png" =>
     match bool? (getD j "overwrite"), str? (getD j "format"), world? (getD j "world"), data? (getD j "data"),
           outCtx? (getD j "out") with
